@@ -163,6 +163,16 @@ def _two_records(P, R):
         if rem_mod:
             g_node = [c for (c, s) in A.calls_with_receiver_field(fn, "import_graph", MM) if c.name.endswith("HashMap::remove")]
             g_edges = [c for c in fn.calls() if c.name.endswith("HashSet::remove") and c.bb in fn.normal_blocks() and "import_graph" in fmt_sym(fn.sym_operand(c.args[0]), maxdepth=12)]
+            if not g_edges:
+                # adapter form: self.import_graph.values_mut().for_each(|imports| { imports.remove(name); })
+                for c in fn.calls():
+                    if c.bb in fn.normal_blocks() and c.name.endswith("::for_each") and len(c.args) == 2 and "import_graph" in fmt_sym(fn.sym_operand(c.args[0]), maxdepth=12) \
+                            and not A.truncating_adapters(fn.sym_operand(c.args[0])):
+                        for x in walk(fn.sym_operand(c.args[1])):
+                            if x[0] == "agg" and x[1].startswith("closure:") and x[1][len("closure:"):] in P.fns:
+                                cf = P.fns[x[1][len("closure:"):]]
+                                g_edges += [cc for cc in cf.calls() if cc.name.endswith("HashSet::remove") and cc.bb in cf.normal_blocks()
+                                            and any(y[0] == "param" and y[1] == 2 for y in walk(cf.sym_operand(cc.args[0])))]
             # ImportDecls of other modules: a retain on `.imports` whose closure compares from_module with the name
             d_ret = []
             for c in fn.calls():
@@ -301,4 +311,31 @@ def _type_filter(fn, bb, kinds):
                     else:
                         allowed.add(var)
             return allowed <= kinds and allowed != set()
+    # the filter sits in the loop's iterator: `for import in imports.iter().filter(|i| matches!(i.import_type, ..))`
+    for lp in fn.loops():
+        if bb not in lp["body"] and not fn.dominates(lp["header"], bb):
+            continue        # (an `return Ok(true)` block leaves the loop: it is dominated by the header, not part of the body)
+        drv = A.loop_driver(fn, lp)
+        if drv.get("kind") != "iterator" or not drv.get("iter_sym"):
+            continue
+        for x in walk(drv["iter_sym"]):
+            if x[0] == "call" and x[1].endswith("::filter") and len(x[2]) == 2:
+                for y in walk(x[2][1]):
+                    if y[0] == "agg" and y[1].startswith("closure:") and y[1][len("closure:"):] in fn.prog.fns:
+                        cf = fn.prog.inlined(fn.prog.fns[y[1][len("closure:"):]])     # `|i| i.brings_rules()` reads through the helper
+                        rows, capped = A.decision_rows(cf)
+                        if capped:
+                            continue
+                        allowed, ok = set(), True
+                        for conds, ret in rows:
+                            r = strip(ret) if ret is not None else None
+                            if r == ("const", "bool", False):
+                                continue
+                            vs = [o[1] for c, o in conds if isinstance(o, tuple) and o[0] == "is" and fmt_sym(strip(c), maxdepth=8).endswith(".import_type)")]
+                            if r == ("const", "bool", True) and vs:
+                                allowed |= set(vs)
+                            else:
+                                ok = False
+                        if ok and allowed:
+                            return allowed <= kinds
     return False
